@@ -344,6 +344,24 @@ void CloseFile(void) {
     }
     fclose(PrgFile);
     PrgFile = NULL; /* a later fatal error closes what is still open */
+
+    /* relocation and export entries that were queued behind the last code of this
+       file (an empty last record writes none) are not the next file's */
+
+    while (PatchList) {
+        PatchLast = PatchList;
+        PatchList = PatchLast->Next;
+        free(PatchLast->Ref);
+        free(PatchLast);
+    }
+    PatchLast = NULL;
+    while (ExportList) {
+        ExportLast = ExportList;
+        ExportList = ExportLast->Next;
+        free(ExportLast->Name);
+        free(ExportLast);
+    }
+    ExportLast = NULL;
 }
 
 /*--- erzeugten Code einer Zeile in Datei ablegen ---------------------------*/
